@@ -130,10 +130,11 @@ Theorem c20_kept_messages_survive_step : forall s m l ce re,
 Proof. exact step_keeps_high. Qed.
 
 (* STEP (b2): ... and every ResendRequest written in that event is the next chunk: the chunk end is non-zero and at most
-   the new expected number (PQ: no ResendRequest waits in the outbound queue while a TestRequest is pending). *)
+   the new expected number (PQ: no ResendRequest waits in the outbound queue while a TestRequest is pending); whatever is
+   buffered inbound (the session stays logged on, so nothing is drained). *)
 Theorem c20_request_is_next_chunk_step : forall s m l ce re,
   Boundary s -> RI s -> CI s -> PQ s -> is_pending (s_st s) = true ->
-  unwrap_pending (s_st s) = SResend (Some l) ce re -> s_in_buf s = [] ->
+  unwrap_pending (s_st s) = SResend (Some l) ce re ->
   let s' := step s (EIncoming m) in
   is_logged_on (s_st s') = true ->
   forall rq, In rq (resend_requests (rev (s_wire s'))) -> ce <> 0 /\ ce <= s_tgt s'.
